@@ -54,7 +54,9 @@ func layoutOf(s []byte, checkSize int) (l xzLayout, ok bool) {
 	return l, true
 }
 
-func reseal(s []byte, lo, hi int) { binary.LittleEndian.PutUint32(s[hi:], crc32.ChecksumIEEE(s[lo:hi])) }
+func reseal(s []byte, lo, hi int) {
+	binary.LittleEndian.PutUint32(s[hi:], crc32.ChecksumIEEE(s[lo:hi]))
+}
 
 type mutant struct {
 	name string
@@ -113,10 +115,37 @@ func structuralMutants(rng *rand.Rand, s []byte, checkSize int, contentLen int) 
 		}
 	}
 	hasSizes := s[b.hdr+1]&0xC0 != 0
-	add("block-reserved-flags", true, func(t []byte) []byte { t[b.hdr+1] |= 4 << uint(rng.Intn(4)); reseal(t, b.hdr, b.hdr+b.hdrLen-4); return t })
-	add("block-filter-count", true, func(t []byte) []byte { t[b.hdr+1] |= byte(1 + rng.Intn(3)); reseal(t, b.hdr, b.hdr+b.hdrLen-4); return t })
+	add("block-reserved-flags", true, func(t []byte) []byte {
+		t[b.hdr+1] |= 4 << uint(rng.Intn(4))
+		reseal(t, b.hdr, b.hdr+b.hdrLen-4)
+		return t
+	})
+	add("block-filter-count", true, func(t []byte) []byte {
+		t[b.hdr+1] |= byte(1 + rng.Intn(3))
+		reseal(t, b.hdr, b.hdr+b.hdrLen-4)
+		return t
+	})
 	add("block-filter-id", true, func(t []byte) []byte {
 		t[fo] = []byte{0x03, 0x04, 0x20, 0x22}[rng.Intn(4)]
+		reseal(t, b.hdr, b.hdr+b.hdrLen-4)
+		return t
+	})
+	// the filter id re-encoded as a longer uvarint that agrees with 0x21 in its low byte (0x121, 0x2021, 0x4021):
+	// fits into the header padding, every other field unchanged; an unsupported filter id
+	add("block-filter-id-multibyte", true, func(t []byte) []byte {
+		enc := [][]byte{{0xa1, 0x02}, {0xa1, 0x40}, {0xa1, 0x80, 0x01}}[rng.Intn(3)]
+		rest := append([]byte{}, t[fo+1:b.hdr+b.hdrLen-4]...) // props size, dict code, padding
+		// need len(enc)-1 spare zero bytes at the end of the header
+		for i := 0; i < len(enc)-1; i++ {
+			if len(rest) == 0 || rest[len(rest)-1] != 0 {
+				return nil
+			}
+			rest = rest[:len(rest)-1]
+		}
+		if len(rest) < 2 {
+			return nil
+		}
+		copy(t[fo:], append(append([]byte{}, enc...), rest...))
 		reseal(t, b.hdr, b.hdr+b.hdrLen-4)
 		return t
 	})
@@ -129,7 +158,11 @@ func structuralMutants(rng *rand.Rand, s []byte, checkSize int, contentLen int) 
 		reseal(t, b.hdr, b.hdr+b.hdrLen-4)
 		return t
 	})
-	add("block-dict-code-invalid", true, func(t []byte) []byte { t[fo+2] = byte(41 + rng.Intn(200)); reseal(t, b.hdr, b.hdr+b.hdrLen-4); return t })
+	add("block-dict-code-invalid", true, func(t []byte) []byte {
+		t[fo+2] = byte(41 + rng.Intn(200))
+		reseal(t, b.hdr, b.hdr+b.hdrLen-4)
+		return t
+	})
 	// declared sizes in the block header (rewrite the header with size fields, same length if it fits)
 	for _, which := range []string{"csize", "usize"} {
 		which := which
